@@ -91,7 +91,7 @@ def count_part(ctx, fails):
         im = call_counts(t, alpha)
         impl.append((t, alpha, im))
         q = ' '.join(qlit(x) for x in t)
-        twin = '[]'
+        twin = '(@nil (list (list Z)))'
         if side:
             parts = []
             for f in F4:
